@@ -21,7 +21,7 @@ MANIFEST_ENTRY = {
 }
 
 
-def tasks(tier, seed):
+def _tasks_core(tier, seed):
     ts = [func("bt.algos.%s.__call__" % c) for c in SELECTORS]
     ts += [func("bt.algos.SelectRandomly.__call__", variant="with-n"), func("bt.algos.SelectRandomly.__call__", variant="no-n")]
     ts.append(dict(kind="custom", module="props.bounded", fn="run_script", script="c14_select", seed=seed, n=1, props=["C14"]))
@@ -35,3 +35,11 @@ def post(results, tier, seed):
 
 def replay(o):
     return o.get("replay_inline")
+
+
+# functions under contract elsewhere whose obligations carry this property's tag as well (found by tools/tagaudit.py): run here too, so that a change
+# which breaks one of them is reported by this check and not only by a neighbour
+def tasks(tier, seed):
+    return _tasks_core(tier, seed) + [
+        func("bt.core.StrategyBase.universe"),
+    ]
